@@ -174,6 +174,11 @@ Section Tab.
   Lemma omin_is_indep_t i : i < N -> In (omin nlp act i) (indep_atoms nlp N act).
   Proof. intros Hi. apply omin_is_indep; grp. Qed.
 
+  Lemma omin_le_orbit_t i t : t < nlp -> omin nlp act i <= act t i.
+  Proof. intros Ht. apply omin_le_orbit; grp. Qed.
+  Lemma indep_unique_t i j t : i < N -> In i (indep_atoms nlp N act) -> In j (indep_atoms nlp N act) -> t < nlp -> act t i = j -> i = j.
+  Proof. intros Hi Hii Hij Ht E. apply (indep_unique_in_orbit nlp N act) with (t := t); grp. Qed.
+
   Lemma sclass_complete_t a a' : a <> [] -> in_range N a -> in_range N a' -> length a = length a' ->
     (sclass_t a = sclass_t a' <-> exists t, t < nlp /\ shift act t a = a').
   Proof.
